@@ -24,4 +24,5 @@ for d in cmd/c*/; do
   buf=$(cat $d/bufsiz 2>/dev/null || echo 100)
   ./vbuild.sh $S/$id $buf ./cmd/$id $S/$id/bin >/dev/null
 done
+./selftest.sh all
 echo setup ok
